@@ -489,6 +489,22 @@ pub fn boundary_keysets(rng: &mut Rng, tier: Tier) -> Vec<(String, Vec<Vec<u8>>)
         }
         out.push((format!("twins{}", f), sort_dedup(ks)));
     }
+    // twins whose children are all leaves, after one filler key: under a one-cell cache the wide node
+    // is stored over the filler's node and looked up again with NOTHING compiled in between
+    for &f in &[3usize, 33, 40, 256] {
+        let bytes: Vec<u8> = (0..f).map(|i| (i as u8).wrapping_mul(5).wrapping_add(3)).collect::<std::collections::BTreeSet<u8>>().into_iter().collect();
+        let mut ks = vec![vec![1u8, b'a']];
+        for p in [b'a', b'b'] {
+            for &c in &bytes {
+                ks.push(vec![p, c]);
+            }
+        }
+        out.push((format!("twinsfill{}", f), sort_dedup(ks)));
+    }
+    // consecutive cache occupants P, R and then a node whose transitions are P's followed by R's
+    out.push(("evictconcat_1".to_string(), sort_dedup(vec![b"1a".to_vec(), b"2b".to_vec(), b"3a".to_vec(), b"3b".to_vec()])));
+    out.push(("evictconcat_2".to_string(), sort_dedup(vec![b"1a".to_vec(), b"1b".to_vec(), b"2c".to_vec(), b"3a".to_vec(), b"3b".to_vec(), b"3c".to_vec()])));
+    out.push(("evictconcat_3".to_string(), sort_dedup(vec![b"0z".to_vec(), b"1a".to_vec(), b"2b".to_vec(), b"2c".to_vec(), b"3a".to_vec(), b"3b".to_vec(), b"3c".to_vec(), b"4a".to_vec()])));
     // long keys (one-trans-next chains), common and uncommon bytes
     for &l in &[1usize, 2, 50, 300, 1000] {
         out.push((format!("long{}_common", l), vec![vec![b'e'; l]]));
